@@ -55,3 +55,31 @@ def compile_error_text(r):
     t = (r.stderr or b"").decode("utf-8", "replace")
     lines = [l for l in t.splitlines() if "ld:" not in l and "NOTE: This behaviour" not in l]
     return "\n".join(lines)[-3000:]
+
+
+_CRASH_HEADS = ("fatal error:", "assert failed", "unreachable code executed", "division by 0", "array index out of bounds", "nil check failed",
+                "cast failed", "out of memory", "stack overflow", "illegal state", "overflow", "shift amount out of bounds")
+
+
+def crash_signature(text):
+    """Stable signature of a crash of the (Dora-implemented) optimizing compiler or of a Rust component: the message line plus
+    the first three frames' function names, digits abstracted. Returns None if the text holds no crash."""
+    import re
+    lines = text.splitlines()
+    for i, l in enumerate(lines):
+        t = l.strip()
+        if "panicked at" in t:
+            m = re.search(r"panicked at ([^\s:]+:\d+)", t)
+            where = re.sub(r"^.*?/(dora-[^/]+/)", r"\1", m.group(1)) if m else "?"
+            msg = lines[i + 1].strip() if i + 1 < len(lines) else ""
+            return "panic@%s:%s" % (where, re.sub(r"\d+", "N", msg)[:60])
+        if t.startswith(_CRASH_HEADS) and not l.startswith(" "):
+            frames = []
+            for f in lines[i + 1:i + 12]:
+                if f.startswith("    ") and "(" in f:
+                    frames.append(re.sub(r"\[[^\]]*\]", "[..]", f.strip().split(" (")[0]))
+                elif frames:
+                    break
+            frames = [f for f in frames if not f.startswith("std::")][:3]
+            return "%s@%s" % (re.sub(r"\d+", "N", t)[:60], ">".join(frames))
+    return None
